@@ -1096,6 +1096,10 @@ func c14OrderedLists(c *Ctx) {
 				if isEmptyList(st.Val) {
 					continue
 				}
+				if w.sizedFill(fn, st, ref) {
+					c.ok(rule, ref+"<-"+w.fname(fn), w.ipos(st), "decoder sizes the list by its source and stores element i at index i for every source element")
+					continue
+				}
 				c.check(isAppendOne(st.Val, ref), rule, ref+"<-"+w.fname(fn), w.ipos(st), "decoder appends elements in input order", "decoder stores "+w.termKey(st.Val)+" into "+ref+": elements are not appended one by one in input order")
 			}
 		}
@@ -1103,7 +1107,7 @@ func c14OrderedLists(c *Ctx) {
 		filled := false
 		for fn := range dec {
 			for _, st := range w.fieldStores(fn, ref) {
-				if isAppendOne(st.Val, ref) {
+				if isAppendOne(st.Val, ref) || w.sizedFill(fn, st, ref) {
 					filled = true
 				}
 			}
@@ -1209,6 +1213,89 @@ func isEmptyList(v ssa.Value) bool {
 			if arr, ok := al.Type().Underlying().(*types.Pointer).Elem().Underlying().(*types.Array); ok {
 				return arr.Len() == 0
 			}
+		}
+	}
+	return false
+}
+
+// makeLenOf: v is make([]T, n) (no separate capacity, or capacity n) and returns n.
+func makeLenOf(v ssa.Value) (ssa.Value, bool) {
+	v = strip(v)
+	if ms, ok := v.(*ssa.MakeSlice); ok {
+		if strip(ms.Cap) == strip(ms.Len) {
+			return ms.Len, true
+		}
+		return ms.Len, true
+	}
+	return nil, false
+}
+
+// sizedFill: store st puts make([]T, len(src)) into list field ref of an object under construction, and a range loop
+// over that same src stores element idx of that list exactly once on every path that reaches the next iteration
+// (other paths leave the function with an error): the list ends up holding one element per source element, in order.
+func (w *World) sizedFill(fn *ssa.Function, st *ssa.Store, ref string) bool {
+	n, ok := makeLenOf(st.Val)
+	if !ok {
+		return false
+	}
+	src, isLen := lenOf(n)
+	if !isLen {
+		return false
+	}
+	fa, ok := st.Addr.(*ssa.FieldAddr)
+	if !ok {
+		return false
+	}
+	obj := strip(fa.X)
+	for _, rl := range rangeLoops(fn) {
+		if rl.IsMap || strip(rl.Over) != strip(src) {
+			continue
+		}
+		var sites []ssa.Instruction
+		eachInstr(fn, func(in ssa.Instruction) {
+			es, ok := in.(*ssa.Store)
+			if !ok || !rl.inLoop(es.Block()) {
+				return
+			}
+			ia, ok := es.Addr.(*ssa.IndexAddr)
+			if !ok || ia.Index != rl.Idx {
+				return
+			}
+			if r, base := loadedField(ia.X); r == ref && strip(base) == obj {
+				sites = append(sites, es)
+			}
+		})
+		if len(sites) == 0 {
+			continue
+		}
+		isSite := func(in ssa.Instruction) bool {
+			for _, s := range sites {
+				if in == s {
+					return true
+				}
+			}
+			return false
+		}
+		// from the top of the body, the loop head is not reachable without passing an element store ...
+		if canReach(blockStart(rl.Body), nil, isInstr(rl.If), isSite) {
+			continue
+		}
+		// ... and not through two of them
+		twice := false
+		for _, s := range sites {
+			if canReach(at(s), nil, isSite, isInstr(rl.If)) {
+				twice = true
+			}
+		}
+		// the list field is not replaced after it was sized
+		replaced := false
+		for _, other := range w.fieldStores(fn, ref) {
+			if other != st && canReach(at(st), nil, isInstr(other), nil) {
+				replaced = true
+			}
+		}
+		if !twice && !replaced {
+			return true
 		}
 	}
 	return false
